@@ -5,6 +5,9 @@ namespace dsplib {
 
 template<typename T>
 static std::ostream& format(std::ostream& os, const base_array<T>& x) {
+    if (x.empty()) {
+        return os;
+    }
     for (int i = 0; i < (x.size() - 1); ++i) {
         os << x[i] << ", ";
     }
